@@ -584,6 +584,38 @@ def tree_depth(tokens):
             pending.append(2)
     return best
 
+_IT = re.compile(r'^@(-?\d+):(-?\d+):(-?\d+):-?\d+(.*)$')
+_ENT = re.compile(r'^-?\d+:-?\d+:-?\d+(,-?\d+:-?\d+:-?\d+)*$')
+
+
+def public_view(line):
+    """The part of an observation line the property text speaks about, with the harness's entry labels removed:
+    result (a returned iterator as rank:key:value, the accessor flags kept), comparison count, size, emptiness and
+    the entries in iteration order as key:value.  The label of an entry (`slot` = its allocation number, handed
+    out by the harness) and everything behind the second ` | ` (tree, Item fields) are not part of it."""
+    out = []
+    for sec in line.split(' | ')[:2]:
+        toks = []
+        for t in sec.split(' '):
+            m = _IT.match(t)
+            if m:
+                t = '@%s:%s:%s%s' % (m.group(1), m.group(2), m.group(3), m.group(4))
+            elif _ENT.match(t):
+                t = ','.join(e.rsplit(':', 1)[0] for e in t.split(','))
+            toks.append(t)
+        out.append(' '.join(toks))
+    return ' | '.join(out)
+
+
+def property_diff(spec, impl):
+    """index of the first line on which the implementation's public observation leaves the reference's
+    expectation (wildcards `?` of the reference honoured), entries compared by rank/key/value - never by label"""
+    k = first_diff(spec, impl)
+    if k is None:
+        return None
+    return first_diff([public_view(l) for l in spec], [public_view(l) for l in impl])
+
+
 PROFILES = ['ascending', 'descending', 'zigzag', 'random', 'internal', 'hinted', 'bulk', 'equal']
 MUT = ('ins', 'hint', 'hintc', 'remk', 'remi', 'remf', 'remb', 'copy', 'copyc', 'bulk')
 
@@ -630,8 +662,13 @@ class C01(Check):
                   'operator* and operator-> (const and non-const overload each), ++ and -- (in place and as const members), == and != - is compared '
                   'with the raw Item it designates (key/value addresses, next/prev), and the const overloads of front/back with the non-const ones. '
                   'The real depth of the Item tree after every operation and the comparison count of every find are judged against the bound; '
-                  'when the Item fields differ from the model although results and contents agree, an adversarial search (3 explorers, archive '
-                  'of histories by entries/depth/imbalance, started from sparsest trees) looks for a history that breaks the bound.')
+                  'when the Item fields differ from the model although results and contents agree, an adversarial search (3 explorers in lock step, '
+                  'seeded from VERIF_SEED, a fixed number of rounds; archive of histories by entries/depth/imbalance, started from sparsest '
+                  'trees) proposes histories (inserts / removals by key) that may break the bound; the property oracle decides. '
+                  'PROPERTY ORACLE (round 6): the public part of every observation line - result, returned iterator as rank:key:value '
+                  'in the implementation\'s own iteration order, size, entries as key:value - against the reference, plus the comparison / '
+                  'depth bound; entry labels (allocation numbers), tree and Item fields are compared with the MODEL only (correspondence). '
+                  'A failure is reported only when it repeats on a second, isolated run of the case.')
     level_note = ('The theorems are about the models; the tie to the code is differential. Since round 3 the pointer level is proved, '
                   'not only compared: the cell machine (field writes in the code\'s order, early exits included) refines the node-level '
                   'model for all histories, and the node-level model refines the reference. Still validated by correspondence only: '
@@ -655,15 +692,21 @@ class C01(Check):
                   '(no-failing-input-found), not a property failure. That remove(key) takes exactly one entry (not all equal keys) remains '
                   'the reading of the text adopted since round 2; find(key) on a run answers its first entry in the reference (an STL '
                   'lower_bound-style reference; the text does not say more). find_cost_logarithmic_real depends on the axioms of Coq\'s classical real numbers; the other 32 theorems are '
-                  'closed under the global context. The depth search is a search, not a proof: it found the two audit edits (double rotation on a '
-                  'slope-0 child) within 4..90 s in every trial, but a slip that needs a rarer history can still end as no-failing-input-found. Trusted: Coq kernel, AvlSpec.v as the reading of the property text, extraction, '
+                  'closed under the global context. Round 6: the allocation number (slot) the harness gives every new entry, the tree and the raw Item fields are '
+                  'model-only observations: a difference there is a correspondence break (no-failing-input-found), never a failing input; the property '
+                  'oracle names entries by rank, key and value in the implementation\'s own iteration order (values are distinct inside every generated run of '
+                  'equal keys). The watchdog of the harness (5 s per case) measures wall-clock time: a stall of the machine could end a case early and used to be '
+                  'reported as a failing input (`implementation gives ! timeout`, the false alarm on harmless/C01-h1); now such a case is run again and only a '
+                  'failure that repeats counts. The depth search and the shrinking are bounded by counted steps, all their random choices come from VERIF_SEED. '
+                  'The depth search is a search, not a proof: it found the two audit edits (double rotation on a '
+                  'slope-0 child) in every trial (4..90 s, i.e. 17..160 of the 600 rounds), but a slip that needs a rarer history can still end as no-failing-input-found. Trusted: Coq kernel, AvlSpec.v as the reading of the property text, extraction, '
                   'OCaml driver (it re-tabulates the extracted heap closures after every operation), harness, comparison-counting key type.')
     technique = 'Coq proof about two executable Gallina models (node level: invariant + refinement + cost bound; pointer level: cell machine refines the node level via a representation relation); extracted models and reference run against the sanitizer build of the code on generated histories, raw Item fields compared'
     rule = ('cases = operation histories on two Map or two MultiMap objects: boundary (empty, single entry, key 0, negatives, '
             'equal keys, copy/assign/self-assign over empty and non-empty targets), build profiles (ascending/descending/zigzag/'
             'random/internal two-child removals/hinted/copy+assign+self-assign (both flavours, MultiMap sources with runs of equal '
             'keys built by plain and hinted inserts) and insert(other) (Map)/equal-key runs) over key ranges 4..200 and lengths 3..300, a small exhaustive scope of {reset op} x {hint position} x {key vs old '
-            'extremes} (448 cases quick, 908 thorough), every tree shape of 5 (quick) / 4..6 (thorough) keys x every removal rank followed by plain/hinted inserts and removals, fill-then-drain histories (one side, all but powers of two, repeated median/quartile removals) up to 60 (quick) / 255 (thorough) entries, and sparsest AVL trees (Fibonacci trees of height 4..7 quick / 3..9 thorough, deeper side left / right / random, optionally with a few complete subtrees) built in level order without a rotation and then thinned from the shallow side, at random, or churned with inserts next to existing keys (144 quick / 756 thorough); after a model/implementation difference in the Item fields an adversarial depth search (150 s quick / 420 s thorough, implementation alone) runs; the harness is restarted at most 150 times (30 watchdog timeouts) per run; oracles: reference results line by line (hinted MultiMap positions and the entry MultiMap::remove(key) takes checked relationally), iterator accessors against the raw Item, comparison count and real tree depth against 2*floor(1.4405*log2(n+2)); a case is '
+            'extremes} (448 cases quick, 908 thorough), every tree shape of 5 (quick) / 4..6 (thorough) keys x every removal rank followed by plain/hinted inserts and removals, fill-then-drain histories (one side, all but powers of two, repeated median/quartile removals) up to 60 (quick) / 255 (thorough) entries, and sparsest AVL trees (Fibonacci trees of height 4..7 quick / 3..9 thorough, deeper side left / right / random, optionally with a few complete subtrees) built in level order without a rotation and then thinned from the shallow side, at random, or churned with inserts next to existing keys (144 quick / 756 thorough); after a model/implementation difference in the Item fields an adversarial depth search (600 rounds quick / 1800 thorough of 3 seeded explorers in lock step - steps, not seconds -, implementation alone) proposes histories that the property oracle then judges; a case that ended in a crash / watchdog line is run again alone (first 6 of a run) and every failing case is run a second time with twice the watchdog time: only a failure that repeats is reported; the harness is restarted at most 150 times (30 watchdog timeouts) per run; oracles: reference results line by line on the public part (iterators and entries by rank/key/value, not by allocation number; hinted MultiMap positions and the entry MultiMap::remove(key) takes checked relationally), iterator accessors against the raw Item, comparison count and real tree depth against 2*floor(1.4405*log2(n+2)); a case is '
             'non-trivial when it has at least 3 mutating operations and reaches at least 3 entries; distinct = distinct op text')
     assumptions = ['keys and values are int (the code is a template; the harness instantiates a comparison-counting int key)',
                    'the allocator succeeds (no out-of-memory path is modelled)',
@@ -719,7 +762,7 @@ class C01(Check):
                 c = cur[i]
                 if not c or not c[0].startswith('@') or 'multimap' not in c[0][1:].split():
                     continue
-                k = first_diff(spec_obs[i], impl_obs[i])
+                k = property_diff(spec_obs[i], impl_obs[i])
                 ops = c[1:]
                 if k is None or k >= len(ops) or k >= len(impl_obs[i]):
                     continue
@@ -769,9 +812,18 @@ class C01(Check):
                     return k, 'tree of %d entries is %d levels deep, bound is %d' % (n, d, bound(n) // 2)
         return None
 
-    def judge(self, cases, impl_obs, spec_obs):
+    def judge_once(self, cases, impl_obs, spec_obs):
+        """The property oracle proper, on the implementation's own observations: every line's public part (result,
+        returned iterator as rank/key/value, size, entries in iteration order as key/value) against the reference,
+        then the cost clause.  Entry labels (slots) and the internal sections are not looked at."""
         spec_obs = self.relational(cases, impl_obs, spec_obs)
-        fails = Check.judge(self, cases, impl_obs, spec_obs)
+        fails = []
+        for i, (s, o) in enumerate(zip(spec_obs, impl_obs)):
+            k = property_diff(s, o)
+            if k is not None:
+                exp = public_view(s[k]) if k < len(s) else '<nothing>'
+                got = public_view(o[k]) if k < len(o) else '<nothing>'
+                fails.append((i, k, 'spec expects `%s`, implementation gives `%s`' % (exp, got)))
         seen = {i for (i, _, _) in fails}
         # the cost clause: comparisons of a find <= 2*floor(1.4405*log2(n+2)), depth of the tree <= half of it
         for i, obs in enumerate(impl_obs):
@@ -780,6 +832,35 @@ class C01(Check):
             cf = self.cost_fail(obs)
             if cf:
                 fails.append((i, cf[0], cf[1]))
+        return fails
+
+    CONFIRM_MAX = 6          # failing cases confirmed per call (the shortest ones); the others are not reported
+    transient_total = 0
+
+    def judge(self, cases, impl_obs, spec_obs):
+        """judge_once, and then every failure has to REPEAT: the failing cases (the CONFIRM_MAX shortest) are run a second
+        time, alone, with twice the watchdog time, and judged again.  The harness is deterministic, so a
+        failure of the property repeats; what does not repeat was an accident of the run (the harness process
+        stalled past its wall-clock watchdog on a loaded machine, was killed from outside, lost output) and is
+        no failing input.  Its observation is replaced by the repeated one."""
+        fails = self.judge_once(cases, impl_obs, spec_obs)
+        if fails:
+            fails.sort(key=lambda f: (len(cases[f[0]]), f[0]))
+            chosen = fails[:self.CONFIRM_MAX]
+            again, _ = self.run_impl([cases[i] for (i, _, _) in chosen], tag='cfm_impl', per_case_timeout=2 * self.per_case_timeout)
+            confirmed = []
+            for (i, k, reason), obs2 in zip(chosen, again):
+                if obs2 == ['! notrun']:
+                    continue
+                f2 = self.judge_once([cases[i]], [obs2], [spec_obs[i]])
+                if f2:
+                    confirmed.append((i, f2[0][1], f2[0][2]))
+                else:
+                    self.transient_total += 1
+                    vf.log('[C01] not a failing input (did not repeat when the case was run again): %s ...; first run: %s' % (
+                        ' ; '.join(cases[i][:6]), reason[:300]))
+                    impl_obs[i][:] = obs2
+            fails = sorted(confirmed)
         # remember for extra_checks: did a stream show implementation != model although the property oracle is content?
         lm = self._last_model
         if lm is not None and lm[0] is cases and len(lm[1]) == len(cases):
@@ -787,10 +868,9 @@ class C01(Check):
             for i, c in enumerate(cases):
                 if i in failing:
                     continue
-                # same result and contents, but another tree / other Item fields than the model predicts
+                # same public observation, but another tree / other Item fields / other labels than the model predicts
                 for ml, il in zip(lm[1][i], impl_obs[i]):
-                    ms, is_ = ml.split(' | '), il.split(' | ')
-                    if ml != il and len(ms) >= 3 and len(is_) >= 3 and ms[:2] == is_[:2]:
+                    if ml != il and len(ml.split(' | ')) >= 3 and len(il.split(' | ')) >= 3 and public_view(ml) == public_view(il):
                         self.corr_flavours.add('multimap' if (c and c[0].startswith('@') and 'multimap' in c[0][1:].split()) else 'map')
                         break
             if fails:
@@ -808,12 +888,20 @@ class C01(Check):
             self._last_model = (cases, res)
         return res
 
-    def run_impl(self, cases, tag='impl'):
+    retry_total = 0
+    RETRY_MAX = 6
+
+    def run_impl(self, cases, tag='impl', per_case_timeout=None):
         # chunks of 100 cases; every crash / watchdog timeout restarts the harness.  After 150 crashes or 30 timeouts
         # (30 x per_case_timeout = 90 s) over the whole run the remaining cases are not run (`! notrun`, dropped by
         # the framework): the failing inputs are there by then, and a tree on which everything crashes or hangs ends
         # the check within minutes.
+        # A case that ended in a crash / watchdog line is run once more, alone, with twice the watchdog time
+        # (the first RETRY_MAX of a run): the watchdog measures wall-clock time, so a stall of the machine (other
+        # jobs, disk) or a signal from outside ends a case without the code being at fault.  When the case then
+        # runs to its end, that observation counts; when it ends the same way again, the first one stays.
         res, crashes = [], {}
+        pct = per_case_timeout or self.per_case_timeout
         bounded = not (tag.startswith('shr_') or tag.startswith('rel_'))
         for off in range(0, len(cases), 100):
             chunk = cases[off:off + 100]
@@ -821,7 +909,20 @@ class C01(Check):
                 res += [['! notrun'] for _ in chunk]
                 continue
             r, c = vf.run_exe_on_cases(self.exes['impl'], chunk, os.path.join(vf.BUILD, self.id, 'run'), tag, is_impl=True,
-                                       per_case_timeout=self.per_case_timeout)
+                                       per_case_timeout=pct)
+            if tag.startswith('shr_'):
+                self.shr_timeouts += sum(1 for v in c.values() if v[0] == 'timeout')
+            for k in sorted(c):
+                if self.retry_total >= self.RETRY_MAX or self.crash_total + self.timeout_total >= 10:
+                    break
+                self.retry_total += 1
+                r2, c2 = vf.run_exe_on_cases(self.exes['impl'], [chunk[k]], os.path.join(vf.BUILD, self.id, 'run'), tag + '_retry',
+                                             is_impl=True, per_case_timeout=2 * self.per_case_timeout)
+                if not c2:
+                    vf.log('[C01] case %d of %s ended in `%s` and ran to its end when run again alone: an accident of the run, not counted' % (
+                        off + k, tag, r[k][-1] if r[k] else '?'))
+                    r[k] = r2[0]
+                    del c[k]
             res += r
             for k, v in c.items():
                 crashes[off + k] = v
@@ -834,14 +935,19 @@ class C01(Check):
             vf.log('[C01] %d crashes, %d timeouts so far: remaining cases are not run' % (self.crash_total, self.timeout_total))
         return res, crashes
 
-    _shrink_deadline = None
+    shrink_calls = 0
+    shr_timeouts = 0
 
     def shrink(self, case, pred, budget=400):
         # on a tree where the cases hang, every shrinking step costs a watchdog timeout: all shrinking of one run
-        # together gets 300 s, after that the failing inputs are reported as they are
-        if self._shrink_deadline is None:
-            self._shrink_deadline = time.time() + 300
-        return Check.shrink(self, case, lambda c: time.time() < self._shrink_deadline and pred(c), budget)
+        # together gets 1500 candidate runs and 40 watchdog timeouts (counted, not timed - the same run shrinks to the
+        # same input on a loaded machine), after that the failing inputs are reported as they are
+        def counted(c):
+            if self.shrink_calls >= 1500 or self.shr_timeouts >= 40:
+                return False
+            self.shrink_calls += 1
+            return pred(c)
+        return Check.shrink(self, case, counted, budget)
 
     # ---- adversarial search for a history that breaks the depth / cost bound -------------------------------------
     @staticmethod
@@ -873,23 +979,34 @@ class C01(Check):
                 ks.discard(int(t[1]))
         return ks
 
-    def search_worker(self, w, seed, fl, deadline, stop, found):
-        """One explorer.  It keeps an archive of histories by what they reach - cell = (entries n, real depth d,
-        imbalance) - started from sparsest trees (built without a rotation) and random trees; again and again it takes
-        histories from the cells closest to the bound (score = d - 1.4405*log2(n+2) + a small reward for nodes whose
-        subtrees differ by two or more levels, weighted by their height: a code that loses balance shows such defects
-        long before the depth exceeds the bound), extends them by every single removal (the best cells) or by a few
-        random removals / inserts, runs the implementation alone (`search` mode of the harness: one short line per
-        operation) and files every state passed.  No progress for 30 s: start again from scratch."""
-        rng = __import__('random').Random(seed)
-        head = '@%s search' % fl
-        W, CAP, Q, P = 0.02, 40, 3, 0.15
-        crashes = 0
-        def score(cell):
+    class Explorer:
+        """One explorer of the depth search.  It keeps an archive of histories by what they reach - cell = (entries n,
+        real depth d, imbalance) - started from sparsest trees (built without a rotation) and random trees; round after
+        round it takes histories from the cells closest to the bound (score = d - 1.4405*log2(n+2) + a small reward for
+        nodes whose subtrees differ by two or more levels, weighted by their height: a code that loses balance shows
+        such defects long before the depth exceeds the bound), extends them by every single removal (the best cells) or
+        by a few random removals / inserts, runs the implementation alone (`search` mode of the harness: one short line
+        per operation, nothing but the implementation's own size, real depth, imbalance, shape hash and comparison
+        count) and files every state passed.  STALE rounds without progress: start again from scratch.
+        Everything is a function of the seed and of what the implementation printed: no clock, no shared state."""
+        W, CAP, Q, P, STALE = 0.02, 40, 3, 0.15, 60
+
+        def __init__(self, check, w, seed, fl):
+            self.check, self.w, self.fl = check, w, fl
+            self.rng = __import__('random').Random(seed)
+            self.head = '@%s search' % fl
+            self.crashes = 0
+            self.rounds = 0
+            self.restart()
+
+        def score(self, cell):
             n, d, bad = cell
-            return d - 1.4405 * math.log2(n + 2) + W * min(bad, CAP)
-        while time.time() < deadline and not stop[0]:
-            arch, expanded = {}, set()
+            return d - 1.4405 * math.log2(n + 2) + self.W * min(bad, self.CAP)
+
+        def restart(self):
+            rng, head = self.rng, self.head
+            self.arch, self.expanded = {}, set()
+            self.best, self.stale = -1e9, 0
             batch = []
             for h in (4, 5, 6, 7):
                 for lean in ('l', 'r', 'x', 'x'):
@@ -899,121 +1016,145 @@ class C01(Check):
                 keys = list(range(100))
                 rng.shuffle(keys)
                 batch.append([head] + ['ins %d %d' % (k, i + 1) for i, k in enumerate(keys[:rng.randrange(8, 40)])])
-            best, t_best = -1e9, time.time()
-            while time.time() < deadline and not stop[0] and time.time() - t_best < 30:
-                obs, cr = vf.run_exe_on_cases(self.exes['impl'], batch, os.path.join(vf.BUILD, self.id, 'run'), 'search_w%d' % w,
-                                              is_impl=True, per_case_timeout=self.per_case_timeout)
-                crashes += len(cr)
-                if crashes > 30:
-                    return
-                for c, o in zip(batch, obs):
-                    for (k, n, d, bad, h, cmps) in self.search_lines(o):
-                        if 2 * d > bound(n) or (cmps is not None and cmps > bound(n)):
-                            found.append(['@' + fl] + c[1:k + 2])
-                            stop[0] = True
-                            return
-                        if n < 4:
-                            continue
-                        cell = (n, d, bad // Q * Q)
-                        lst = arch.setdefault(cell, [])
-                        if any(h == x[1] for x in lst):
-                            continue
-                        if len(lst) < 6:
-                            lst.append((c[:k + 2], h))
-                        elif rng.random() < 0.3:
-                            lst[rng.randrange(6)] = (c[:k + 2], h)
-                cells = sorted(arch.keys(), key=lambda c: -score(c))
-                if cells and score(cells[0]) > best + 1e-9:
-                    best, t_best = score(cells[0]), time.time()
-                batch = []
-                nexp = 0
-                for cell in cells[:12]:
-                    for ops, h in arch[cell]:
-                        if h in expanded or nexp >= 4:
-                            continue
-                        expanded.add(h)
-                        nexp += 1
-                        ks = self.search_keys(ops)
-                        for k in sorted(ks):
-                            batch.append(list(ops) + ['remk %d' % k])
-                        top = max(ks) + 4 if ks else 10
-                        for _ in range(10):
-                            k = rng.randrange(-2, top)
-                            if k not in ks:
-                                batch.append(list(ops) + ['ins %d 7' % k])
-                for _ in range(100):
-                    i = 0
-                    while i < len(cells) - 1 and rng.random() > P:
-                        i += 1
-                    ops, _h = rng.choice(arch[cells[i]])
-                    ks = self.search_keys(ops)
-                    ops = list(ops)
-                    top = max(ks) + 4 if ks else 10
-                    for _ in range(rng.choice([1, 1, 2, 2, 3, 4, 6, 8])):
-                        if ks and rng.random() < 0.65:
-                            k = rng.choice(sorted(ks))
-                            ops.append('remk %d' % k)
-                            ks.discard(k)
-                        else:
-                            k = rng.randrange(-2, top)
-                            if k in ks:
-                                continue
-                            ops.append('ins %d 7' % k)
-                            ks.add(k)
-                    if len(ops) <= 200:
-                        batch.append(ops)
+            self.batch = batch
 
-    def depth_search(self, rng, flavours, budget_s, workers=3):
+        def round(self):
+            """run the current batch, file the states, prepare the next batch; -> a history that exceeds the bound, or None"""
+            if self.crashes > 30:
+                return None
+            self.rounds += 1
+            rng, arch, Q = self.rng, self.arch, self.Q
+            batch = self.batch
+            obs, cr = vf.run_exe_on_cases(self.check.exes['impl'], batch, os.path.join(vf.BUILD, self.check.id, 'run'),
+                                          'search_w%d' % self.w, is_impl=True, per_case_timeout=4 * self.check.per_case_timeout)
+            self.crashes += len(cr)
+            for c, o in zip(batch, obs):
+                for (k, n, d, bad, h, cmps) in C01.search_lines(o):
+                    if 2 * d > bound(n) or (cmps is not None and cmps > bound(n)):
+                        return ['@' + self.fl] + c[1:k + 2]
+                    if n < 4:
+                        continue
+                    cell = (n, d, bad // Q * Q)
+                    lst = arch.setdefault(cell, [])
+                    if any(h == x[1] for x in lst):
+                        continue
+                    if len(lst) < 6:
+                        lst.append((c[:k + 2], h))
+                    elif rng.random() < 0.3:
+                        lst[rng.randrange(6)] = (c[:k + 2], h)
+            cells = sorted(arch.keys(), key=lambda c: (-self.score(c), c))
+            if cells and self.score(cells[0]) > self.best + 1e-9:
+                self.best, self.stale = self.score(cells[0]), 0
+            else:
+                self.stale += 1
+            if not cells or self.stale >= self.STALE:
+                self.restart()
+                return None
+            batch = []
+            nexp = 0
+            for cell in cells[:12]:
+                for ops, h in arch[cell]:
+                    if h in self.expanded or nexp >= 4:
+                        continue
+                    self.expanded.add(h)
+                    nexp += 1
+                    ks = C01.search_keys(ops)
+                    for k in sorted(ks):
+                        batch.append(list(ops) + ['remk %d' % k])
+                    top = max(ks) + 4 if ks else 10
+                    for _ in range(10):
+                        k = rng.randrange(-2, top)
+                        if k not in ks:
+                            batch.append(list(ops) + ['ins %d 7' % k])
+            for _ in range(100):
+                i = 0
+                while i < len(cells) - 1 and rng.random() > self.P:
+                    i += 1
+                ops, _h = rng.choice(arch[cells[i]])
+                ks = C01.search_keys(ops)
+                ops = list(ops)
+                top = max(ks) + 4 if ks else 10
+                for _ in range(rng.choice([1, 1, 2, 2, 3, 4, 6, 8])):
+                    if ks and rng.random() < 0.65:
+                        k = rng.choice(sorted(ks))
+                        ops.append('remk %d' % k)
+                        ks.discard(k)
+                    else:
+                        k = rng.randrange(-2, top)
+                        if k in ks:
+                            continue
+                        ops.append('ins %d 7' % k)
+                        ks.add(k)
+                if len(ops) <= 200:
+                    batch.append(ops)
+            self.batch = batch
+            return None
+
+    def depth_search(self, rng, flavours, rounds, workers=3):
         """Adversarial search for a history on which the implementation's tree gets deeper, or a find more expensive,
-        than the bound allows (see search_worker; `workers` independent explorers in parallel).  Runs when a stream
-        showed implementation != model in the Item fields without a property failure: a re-balancing slip shows there
-        long before the depth bound breaks on random input.  A candidate is confirmed by the ordinary property oracle.
+        than the bound allows (see Explorer).  Runs when a stream showed implementation != model in the Item fields
+        without a property failure: a re-balancing slip shows there long before the depth bound breaks on random
+        input.  `workers` explorers, seeded from the run's seed, advance in lock step (round r of all of them, in
+        parallel, then round r + 1) for `rounds` rounds shared between the flavours - a number of steps, not a time:
+        the same seed on the same tree visits the same histories whatever the load of the machine.  The search only
+        PROPOSES a history (ins / remk by key); whether it is a failing input is decided by the ordinary property
+        oracle (judge: reference by rank/key/value, depth and comparison bound, repeated once).
         Returns [(case, reason)]."""
         from concurrent.futures import ThreadPoolExecutor
-        t0 = time.time()
         out = []
-        share = budget_s / max(1, len(flavours))
+        share = max(1, rounds // max(1, len(flavours)))
         for fl in flavours:
             t1 = time.time()
-            stop, found = [False], []
+            exps = [self.Explorer(self, w, rng.randrange(1 << 30), fl) for w in range(workers)]
+            done = 0
             with ThreadPoolExecutor(max_workers=workers) as ex:
-                futs = [ex.submit(self.search_worker, w, rng.randrange(1 << 30), fl, t1 + share, stop, found) for w in range(workers)]
-                for f in futs:
-                    f.result()
-            for cand in found:
+                for r in range(share):
+                    cands = [c for c in ex.map(lambda e: e.round(), exps) if c]
+                    done = r + 1
+                    if cands or all(e.crashes > 30 for e in exps):
+                        break
+            for cand in (cands if done else []):
                 pf = self.property_fails(cand)
                 if pf:
                     out.append((cand, pf[2]))
-            vf.log('[C01] depth search (%s, %d explorers): %s after %.0fs' % (fl, workers, 'FOUND' if out else 'nothing found', time.time() - t1))
+            vf.log('[C01] depth search (%s, %d explorers, %d of %d rounds): %s after %.0fs' % (
+                fl, workers, done, share, 'FOUND' if out else 'nothing found', time.time() - t1))
             if out:
                 break
         return out
 
     corr_flavours = set()
     prop_failed = False
+    SEARCH_ROUNDS = {'quick': 600, 'thorough': 1800}
 
     def extra_checks(self, tier, rng, ctx):
         self.corr_flavours = set(self.corr_flavours)
         if ctx['violations'] or self.prop_failed:
             return
         flavours = sorted(self.corr_flavours)
-        budget = 0
+        rounds = 0
         if flavours:
-            budget = 420 if tier == 'thorough' else 150
+            rounds = self.SEARCH_ROUNDS['thorough' if tier == 'thorough' else 'quick']
         elif tier == 'thorough':
-            flavours, budget = ['map', 'multimap'], 40
+            flavours, rounds = ['map', 'multimap'], 160
         if not flavours:
             return
-        found = self.depth_search(rng, flavours, budget)
+        found = self.depth_search(rng, flavours, rounds)
         if not found:
             return
-        found.sort(key=lambda x: len(x[0]))
+        found.sort(key=lambda x: (len(x[0]), x[0]))
         case, reason = found[0]
         pred = lambda c: self.property_fails(c) is not None
         small = self.shrink(case, pred, budget=300)
         r2 = self.property_fails(small)
+        if not r2:
+            # the shrunk history has to fail when run again; else fall back to the confirmed candidate
+            small, r2 = case, self.property_fails(case)
+            if not r2:
+                vf.log('[C01] depth search: the candidate did not fail again when re-run - not reported')
+                return
         p = self.write_replay('failing-input', 'property oracle on implementation observations (depth search after a model/implementation difference)',
-                              small, {'reason': r2[2] if r2 else reason, 'original_length': len(case)})
+                              small, {'reason': r2[2], 'original_length': len(case)})
         ctx['violations'].append((p, ''))
 
     def streams(self, tier, rng):
